@@ -53,7 +53,18 @@ def static_objects(prog):
     return out
 
 
+def t6_own_list_before_shared(prog, ctx):
+    """T6: the drop-in postfix list set per object (CONFIG_DIRS=, documented as the thread-safe way) is used whenever the object has one;
+    the process-wide list of econf_set_conf_dirs() - shared between all threads - is read only for objects without a list of their own
+    (= C12.F3)."""
+    from rules import common as _common
+    from rules import C12 as _C12
+    _common.import_obligations(ctx, prog, [_C12.f1_f3_f5], "T6", "an object's own list keeps the shared one out: ",
+                               keep=lambda ob: ob.rule == "F3" and ("own list" in ob.instance or "chooses" in ob.instance), what="choice of the directory pair")
+
+
 def run(prog, ctx):
+    t6_own_list_before_shared(prog, ctx)
     table = load_table("globals.json")
     rows = {r["name"]: r for r in table["rows"]}
     mt = load_table("mtsafety.json")
